@@ -94,6 +94,8 @@ fn show(data: &[u8]) -> String {
 fn observe(api: &'static str, data: &[u8]) -> Result<Outcome, Fail> {
     let res = match api {
         "parse_obj" => catch(|| parse_obj(data.iter().copied())),
+        // straight from the slice, or (decided by the content) through a reader that returns 1..7 bytes per call
+        _ if hash_of(&data) & 0x30 == 0 => catch(|| read_obj(ChunkReader::for_content(data))),
         _ => catch(|| read_obj(data)),
     };
     let b = match res {
